@@ -52,8 +52,8 @@ Proof.
   intros IH Hr NB Hc.
   assert (Fr : in_fragment OG extras uranges pp (OIdent n) = true).
   { cbn [in_fragment]. unfold ident_ok. rewrite NB, Hr. reflexivity. }
-  apply (psim_weaken cfg E w pp (Cl OG (OIdent n)) True); [intros _; exists K; exact Hc|].
-  apply (IH (OIdent n)); [exact Fr|reflexivity|exact Logic.I].
+  apply (psim_weaken cfg E w pp (ClS OG (OIdent n)) True); [intros _; left; exists K; exact Hc|].
+  apply (IH (OIdent n)); [exact Fr|exact Logic.I|exact Logic.I].
 Qed.
 
 Lemma sim_many f n a emit p sg : sim_at f -> has_orule OG n = true -> is_builtin n = false ->
@@ -119,7 +119,7 @@ Qed.
 
 (* one more iteration of a repetition *)
 Lemma sim_rep_unit f x a emit p sg : sim_at f ->
-  in_fragment OG extras uranges pp x = true -> rok OG K x = true -> lits_valid x ->
+  in_fragment OG extras uranges pp x = true -> rokP OG K x -> lits_valid x ->
   psim True (PSequence (PAndThen vm_skip (vm_expr x))) a emit p sg (rep_unit G (ev f) f a emit (embed x) p sg).
 Proof.
   intros IH Fx Rx Lx. apply psim_sequence.
